@@ -177,10 +177,15 @@ def run(ctx):
                     model_checks.append(("errorpage", inp, b1))
         # ---- URL redirect page --------------------------------------------------------
         for pl in payloads:
-            u = pl.replace("\r", "").replace("\n", "").replace("\t", "")
-            for p in ("gopher", "http"):
+            u0 = pl.replace("\r", "").replace("\n", "").replace("\t", "")
+            import urllib.parse as _up
+            # the URL as it is, with its markup characters percent-encoded, and encoded twice (a decoding step too many, or one
+            # made after the escaping, brings them back)
+            q_ = lambda x: _up.quote(x, safe="", errors="surrogateescape")  # noqa
+            t0 = inert_twin(u0)
+            for p, u, tw_ in [(p_, a_, b_) for p_ in ("gopher", "http") for a_, b_ in ((u0, t0), (q_(u0), q_(t0)), (q_(q_(u0)), q_(q_(t0))))]:
                 sel = "URL:http://host/" + u
-                rq, rqt = reqs.build(p, sel), reqs.build(p, "URL:http://host/" + inert_twin(u))
+                rq, rqt = reqs.build(p, sel), reqs.build(p, "URL:http://host/" + tw_)
                 r, rt = pyg.request(rq, cfg), pyg.request(rqt, cfg)
                 res.evaluations += 2
                 b1 = reqs.body_of(p, r.out) if p == "http" else r.out
@@ -281,6 +286,45 @@ def run(ctx):
                         res.violation(f"C13:structure-changed:{p}:directory-named-like-url", "a directory's own name changed the structure of its page",
                                       {"position": "directory-own-name", "payload": dn, "view": p}, observed=s1[1][-200:], required=s2[1][-200:],
                                       replay={"kind": "request", "request_latin1": rq.decode("latin-1"), "tls": False})
+        # ---- long attribute lines: a block's content lines are the file's lines, each one line, each indented ---------------
+        words = ["+ADMIN:", "+INFO:", "1fake", "+VIEWS:", "Admin:", "Mallory", "<m@evil.invalid>", "+ABSTRACT:", "ordinary", "words", "of", "various", "lengths", "x"]
+        long_lines = []
+        for k_ in range(ctx.n(12, 60)):
+            n_words = rng.choice([12, 20, 35, 60])
+            long_lines.append(" ".join(rng.choice(words) for _ in range(n_words)))
+        long_lines += ["w" * 78 + " +ADMIN: Admin: Mallory", "w" * 79 + " +INFO: 1fake\tfake\t(NULL)\t0".replace("\t", " "), "short"]
+        tree.write("longabs/a.txt", b"a\n")
+        tree.write("longabs/a.txt.abstract", ("\n".join(long_lines) + "\n").encode())
+        tree.write("longabs/a.txt.keywords", (" ".join(words * 12) + "\n").encode())
+        for form, sel in (("!", "/longabs/a.txt"), ("$", "/longabs")):
+            r = pyg.request(reqs.build("gopherp", sel, gplus=form), cfg)
+            res.evaluations += 1
+            res.nontrivial.add(("long-attribute-lines", form))
+            lines = (r.out or b"").split(b"\r\n")
+            # the item's own part: from its +INFO line to the next item's (a '$' listing goes on with the abstract's lines as
+            # informational pseudo-items, each with blocks of its own)
+            starts = [i_ for i_, ln in enumerate(lines) if ln.startswith(b"+INFO: ")]
+            if starts:
+                lines = lines[starts[0]:(starts[1] if len(starts) > 1 else len(lines))]
+            heads = [ln for ln in lines if re.match(rb"\+[A-Z0-9]+:", ln)]
+            names_ = [re.match(rb"\+([A-Z0-9]+):", ln).group(1).decode() for ln in heads if not ln.startswith(b"+-")]
+            want_names = ["INFO", "ADMIN", "VIEWS", "ABSTRACT", "KEYWORDS"]
+            got_abs = []
+            if b"+ABSTRACT:" in lines:
+                i0 = lines.index(b"+ABSTRACT:") + 1
+                while i0 < len(lines) and lines[i0].startswith(b" "):
+                    got_abs.append(lines[i0][1:].decode())
+                    i0 += 1
+            k0 = [n for n in names_ if n in want_names or n not in ("INFO",)]
+            ok = (sorted(set(names_)) == sorted(want_names) and len([n for n in names_ if n == "ADMIN"]) == 1 and
+                  len([n for n in names_ if n == "INFO"]) == 1 and got_abs == long_lines)
+            if not ok:
+                bad = next((ln for ln in lines if ln and not ln.startswith((b" ", b"+"))), None)
+                res.violation("C13:gplus-long-line", "long attribute lines are not delivered one line each, indented, inside their own block",
+                              {"position": "sidecar abstract / keywords with lines of 80-400 characters", "request": sel + "\t" + form},
+                              observed={"headers": names_[:12], "first_unindented": bad[:100] if bad else None, "abstract_lines_read_back": len(got_abs)},
+                              required={"headers": want_names, "abstract_lines": len(long_lines)},
+                              replay={"kind": "request", "request_latin1": reqs.build("gopherp", sel, gplus=form).decode("latin-1"), "tls": False})
         # ---- text -> WML -------------------------------------------------------------
         for i, pl in enumerate(payloads[:ctx.n(30, 200)]):
             data = (pl + "\nsecond " + pl + "  \n\n").encode("utf-8", "surrogateescape")
